@@ -8,7 +8,10 @@ is applied to both corners with one delta in both implementations (C03.d); dimen
 discipline -- ground units, pixels and resolutions are never added or compared across
 dimensions and the contracted return dimensions hold (C03.e); rows come top first in all four
 tile-list producers, the list is row-major and the mosaic decomposes the index the same way
-(C03.f); one way to intersect rectangles in the five clipping sites (C03.g)."""
+(C03.f); one way to intersect rectangles in the five clipping sites (C03.g).
+Added in round 4: the stretch / shrink factors handed to the grid are looked up (grid option, then
+the globals of the configuration being loaded) and never written into the shared mapping of a built-
+in grid (C03.h)."""
 import ast
 
 from ..engine import rule, run_property
